@@ -4,6 +4,7 @@ import (
 	"fmt"
 	"os"
 	"path/filepath"
+	"runtime"
 	"sort"
 	"strings"
 	"time"
@@ -25,6 +26,13 @@ type c13Case struct {
 	direct  string // task named on the command line instead of root (internal-task case)
 }
 
+func otherArch() string {
+	if runtime.GOARCH == "amd64" {
+		return "arm64"
+	}
+	return "amd64"
+}
+
 func c13Cases() []c13Case {
 	y := vlab.Options{AssumeTerm: true, Stdin: "y\n"}
 	n := vlab.Options{AssumeTerm: true, Stdin: "n\n"}
@@ -33,6 +41,12 @@ func c13Cases() []c13Case {
 	return []c13Case{
 		{name: "platform-match", kind: "platform", guard: func(g *T) { g.Platforms = []string{"linux"} }},
 		{name: "platform-exclude", kind: "platform", guard: func(g *T) { g.Platforms = []string{"windows", "darwin"} }, skip: true},
+		// no single entry matches the current platform, although OS and arch each appear in some entry
+		{name: "platform-cross-entries", kind: "platform", guard: func(g *T) { g.Platforms = []string{"linux/" + otherArch(), "windows/" + runtime.GOARCH} }, skip: true},
+		{name: "platform-cross-entries-bare", kind: "platform", guard: func(g *T) { g.Platforms = []string{"windows", otherArch()} }, skip: true},
+		// a task that is not for this platform is skipped before any of its other guards is looked at
+		{name: "platform-exclude-with-missing-required-var", kind: "platform+requires", guard: func(g *T) { g.Platforms = []string{"windows"}; g.Requires = []string{"X"} }, skip: true},
+		{name: "platform-exclude-with-failing-precondition", kind: "platform+precondition", guard: func(g *T) { g.Platforms = []string{"windows"}; g.Preconditions = []string{"false"} }, skip: true},
 		{name: "platform-arch-exclude", kind: "platform", guard: func(g *T) { g.Platforms = []string{"linux/nonsuch"} }, blocked: true, code: 0},
 		{name: "requires-present", kind: "requires", guard: func(g *T) { g.Requires = []string{"X"} }, gvars: [][2]string{{"X", "v"}}},
 		{name: "requires-missing", kind: "requires", guard: func(g *T) { g.Requires = []string{"X"} }, blocked: true, code: 206},
